@@ -565,7 +565,7 @@ META = {
     "explanation": "The router's complete decision tree (all entry->return paths of the compiled resolve_route, as conjunctions over "
                    "method / path-kind / query / header atoms) is compared with the routing function the Smithy http traits define, "
                    "for all model operations x all subsets of routing-relevant optional members; each Operation impl is checked to call "
-                   "exactly its own backend method and access hook. Decides the dispatch table, not the values inside requests. Also: tag exclusivity (a request carrying one query tag of its cell never reaches an operation without that tag) and, as prerequisites, the IP guard (C12.R2) and the router/deserialiser typestate (C04.R4).",
+                   "exactly its own backend method and access hook. Decides the dispatch table, not the values inside requests. Also: tag exclusivity (a request carrying one query tag of its cell never reaches an operation without that tag) and, as prerequisites, the IP guard (C12.R2) and the router/deserialiser typestate (C04.R4). Round 4: also the query is decoded exactly once (C12.R1) and the form verifier is entered only for POST (C10.R7), both as prerequisites.",
     "not_decided": ["that OrderedQs::has / HeaderMap::contains_key implement 'present' (library + C02)", "values inside the request (C02)",
                     "style equivalence (C12)"],
     "assumptions": ["rustc nightly MIR construction", "data/s3.json is the routing oracle (deviations: SKIPPED_OPS, WriteGetObjectResponse at bucket position)"],
